@@ -64,6 +64,13 @@ def nopDecision {P C : Type} (pats : Option (List P)) (m : P → C → Bool) (cm
 def executeNop {P C : Type} (pats : Option (List P)) (m : P → C → Bool) (success : R)
     (exec : W → C → W × Except E R) (w : W) (cmd : C) : W × Except E R :=
   if nopDecision pats m cmd then (w, .ok success) else exec w cmd
+
+/-- a history of commands on one connection with the option configured: the world after all of them.  `W` is the whole
+    state a statement can touch — tables, rows, and the side tables holding comments and declared lengths -/
+def runCmds {P C : Type} (pats : Option (List P)) (m : P → C → Bool) (success : R)
+    (exec : W → C → W × Except E R) : W → List C → W
+  | w, [] => w
+  | w, c :: cs => runCmds pats m success exec (executeNop pats m success exec w c).1 cs
 end
 
 end Fs.Split
